@@ -42,6 +42,8 @@ def run(spec, oracle):
         f"blocks_{spec['nblocks']}": 1,
         f"params_{spec['n_par']}": 1,
         "exact_cases" if p.exact else "float_cases": 1,
+        "tiny_units_with_atol": int(bool(p.notes.get("units"))),
+        "user_atol_option": int(bool(p.notes.get("user_atol"))),
         "degenerate_kept_pairs": int(any(p.E[i] == p.E[j] for i in range(p.N) for j in range(i))),
     }
     nontrivial = oracles.perturbation_couples_eliminated(p) and spec["max_total"] >= 2
@@ -55,7 +57,7 @@ def finalize_common(c, tier, evaluations, distinct):
     need = 40 if tier == "quick" else 300
     if distinct < need:
         reasons.append(f"only {distinct} distinct non-trivial cases (< {need})")
-    for k in ("vtype_dense", "vtype_sparse", "vtype_sympy", "sel_mask", "sel_fd_some", "sel_none", "blocks_3", "params_2", "sylvester_dense", "sylvester_sparse", "sylvester_sympy"):
+    for k in ("vtype_dense", "vtype_sparse", "vtype_sympy", "sel_mask", "sel_fd_some", "sel_none", "blocks_3", "params_2", "sylvester_dense", "sylvester_sparse", "sylvester_sympy", "tiny_units_with_atol", "user_atol_option"):
         if c.get(k, 0) < 3:
             reasons.append(f"class/monitor {k} observed only {c.get(k, 0)} times")
     return reasons
